@@ -108,8 +108,17 @@ def gen_value(t, rnd, name=""):
     if tag == "Tuple":
         return tuple(gen_value(x, rnd, name) for x in t.args)
     if tag == "Fn":
-        a, b, c = rnd.choice([0, 1, -2, 0.5]), rnd.choice([0, 1, 3]), rnd.choice([0, 0, 1])
-        return lambda x, a=a, b=b, c=c: a * x + b + c * x * x
+        from contracts import _histories
+        return _histories.gen_fn(rnd)
+    if tag == "Obj":
+        from contracts import _histories
+        if t.args[0].endswith("weaver.Weaver"):
+            return _histories.gen_weaver(rnd)
+        raise NotImplementedError(f"no generic generator for {t}")
+    if tag == "Kwargs":
+        return {}
+    if tag == "OneOfT":
+        return gen_value(rnd.choice(t.args), rnd, name)
     if tag == "Any":
         return None
     raise NotImplementedError(f"no generic generator for {t}")
@@ -193,12 +202,25 @@ def check_once(c, mod, fun, args):
     np.random.normal = rec_normal
     with warnings.catch_warnings():
         warnings.simplefilter("ignore")
+        caller_arrays = []
+        for k, v in live.items():
+            for arr in getattr(v, "__verif_inputs__", ()):
+                caller_arrays.append((k, arr, np.array(arr, copy=True)))
         try:
-            result = fun(**live)
+            kw = {k: v for k, v in live.items() if not (c.params and c.params.get(k) is S.Kwargs)}
+            for k, v in live.items():
+                if c.params and c.params.get(k) is S.Kwargs:
+                    kw.update(v)
+            result = fun(**kw)
         except Exception as e:      # noqa
             exc = e
         finally:
             np.random.normal = real_normal
+    for k, arr, snap in caller_arrays:
+        if not same(arr, snap):
+            return dict(clause=f"frame::{k}.caller-array", observed="an array handed in by the caller was modified in place")
+    if True:
+        pass
     env = dict(pre)
     if exc is not None:
         cls = type(exc).__name__
@@ -232,6 +254,21 @@ def check_once(c, mod, fun, args):
         for k in pre:
             if k not in c.modifies and not same(pre[k], live[k]):
                 return dict(clause=f"frame::{k}", observed="argument modified")
+    # class invariants of modified objects and of the result
+    for k, obj in list(live.items()) + [("result", result)]:
+        if k != "result" and k not in c.modifies:
+            continue
+        q = type(obj).__module__ + "." + type(obj).__qualname__
+        shape = S.CLASSES.get(q)
+        if shape is None or not c.opts.get("class_invariant_exit", True):
+            continue
+        for inv in shape.invariants:
+            try:
+                ok = bool(shape.funcs[inv](obj))
+            except Exception as e:
+                return dict(clause=f"class-inv::{inv}", observed=f"invariant not evaluable: {type(e).__name__}: {e}")
+            if not ok:
+                return dict(clause=f"class-inv::{inv}", observed=f"{k}: " + repr({a: getattr(obj, a, None) for a in shape.fields})[:300])
     return None
 
 
